@@ -231,19 +231,20 @@ def sliced (p : P Unit) : P Bytes := fun bs =>
 /-- A C string as `strncpy` + terminator leaves it: the bytes up to the first NUL. -/
 def cstr (bs : Bytes) : Bytes := bs.takeWhile (· ≠ 0)
 
-/-- `wasmReadName` (any failure makes the caller report `e`). -/
+/-- `MUST (length <= buffer->length)`, then copy `length` bytes (post-processed by `g`) and
+    `bufferSkipUnchecked(buffer, length)`. -/
+def takeExact (g : Bytes → Bytes) (e length : Nat) : P Bytes := fun bs =>
+  if bs.length < length then .err e else .ok (g (bs.take length), bs.drop length)
+
+/-- `wasmReadName` (any failure makes the caller report `e`): `strncpy` into a zeroed block. -/
 def name (e : Nat) : P Bytes := do
   let length ← u32 e
-  let rem ← P.remaining
-  if rem < length then P.fail e
-  else fun bs => .ok (cstr (bs.take length), bs.drop length)
+  takeExact cstr e length
 
-/-- `wasmReadBytes`. -/
+/-- `wasmReadBytes`: `memcpy`. -/
 def bytesVec (e : Nat) : P Bytes := do
   let length ← u32 e
-  let rem ← P.remaining
-  if rem < length then P.fail e
-  else fun bs => .ok (bs.take length, bs.drop length)
+  takeExact id e length
 
 /-- `wasmDecodeValueType` -/
 def decodeValueType (code : Int) : Option ValType :=
